@@ -19,6 +19,18 @@ CLAIMED = {
             "Trusted: Lean kernel + Mathlib, axioms propext/Classical.choice/Quot.sound; hand-written model tied to the "
             "code by sampled correspondence; float rounding of sums not modelled (1e-12 exact-arithmetic excess is "
             "checked, not proved).", "§6 C04"),
+    "C20": ("Lean 4 proof: soundness of an alias/heap check over every execution order + alias IR regenerated from the "
+            "Python sources on every run (translator) and decided in Lean; bitwise-snapshot experiment on the implementation",
+            "Machine-checked: a statement set that passes `check` never writes caller-owned memory along any execution "
+            "(any order/multiplicity of statements, any resolution of may-aliases) — caller_unchanged, by induction over "
+            "the run; per entry point (15 tools, 3 validation helpers, 10 estimator methods) the alias IR is regenerated "
+            "from /repo's current AST on every run and `check … = true` is re-proved by `decide +kernel` (a new in-place "
+            "write on a possibly-aliased array breaks that obligation at lake build); fit_transform_eq as corollary. The "
+            "property is also checked directly on the implementation: bitwise snapshots of every caller-owned array "
+            "across dtypes/layouts/bounds forms, and fit_transform vs fit+transform for PCA/StandardScaler.",
+            "Trusted: Lean kernel; the translator (AST -> IR, reaching definitions, callee binding) and its tables of which "
+            "numpy/sklearn calls copy, may return views, or write in place; numpy/sklearn copying behaviour is observed, "
+            "not modelled.", "§6 C20"),
 }
 
 NOT_YET = "not built yet in this round; planned as in DESIGN.md §6/§10 (no technique other than Lean proof will be used)"
